@@ -954,6 +954,16 @@ func c11GenKeys(r *rand.Rand, n int) [][]byte {
 		}
 		set[string(k)] = true
 	}
+	// the empty key (legal since /repo f30cabd; always the first entry of the table, of block 0 and
+	// of the index block) in one table out of six. It is outside the guard of the byte-level
+	// theorems (keys_ok: non-empty keys) but inside the oracle and the correspondence.
+	if n > 1 && r.Intn(6) == 0 {
+		for k := range set {
+			delete(set, k)
+			break
+		}
+		set[""] = true
+	}
 	keys := make([]string, 0, n)
 	for k := range set {
 		keys = append(keys, k)
@@ -1030,7 +1040,7 @@ func c11Targets(r *rand.Rand, es []c11GenEntry, idx []int) [][]byte {
 			}
 		default:
 			d := append([]byte(nil), k...)
-			if d[len(d)-1] > 0 {
+			if len(d) > 0 && d[len(d)-1] > 0 {
 				d[len(d)-1]--
 			}
 			ts = append(ts, d)
